@@ -25,12 +25,13 @@ CLAIMED = {
               "evaluated on the implementation with the Lean path interpreter Spec.interp (SVG 8.3) as judge. Semantic "
               "preservation is proved by simulation for explicit_lines() (explicitLines_preserves_curve), expand_shorthand() "
               "(expandShorthand_preserves_curve: the reflection SVG 8.3 prescribes, after a curve of the same family only, for "
-              "shorthand chains of any length), relative() (relative_preserves_curve) and absolute() "
+              "shorthand chains of any length), relative() (relative_preserves_curve), move() (move_translates_curve: the drawn "
+              "segments are shifted by (dx, dy), for paths that start with a moveto) and absolute() "
               "(absolute_preserves_curve: whenever the 1e-9 end-point snapping does not fire; unconditionally at tolerance 0): "
               "for every command sequence the specification gives a meaning to, Spec.interp of the output equals Spec.interp of "
               "the input; the walker's current point / subpath start equal the interpreter's after every command for all twenty "
               "letters (nextPos_is_current_point), and any callback that is sound command by command inherits the result "
-              "(sound_callback_preserves_curve). For arcs_to_cubics, move and the shapes the semantic half is "
+              "(sound_callback_preserves_curve). For arcs_to_cubics and the shapes the semantic half is "
               "carried by the Spec-judged search."),
         note=("Trusted: Lean kernel; propext/Classical.choice/Quot.sound; Spec/PathInterp.lean, Spec/Shapes.lean; translator; "
               "harness; F64 ntos/round bridge. One recorded finding (smooth shorthand directly after an arc in "
@@ -141,7 +142,9 @@ CLAIMED = {
     "C08": dict(
         text=("Lean 4 theorems on the pipeline model's id machinery: an id allocated by _new_id (cloned gradient <id>_<n>, nested-svg "
               "viewport clip) is not among the ids of the tree searched and carries the requested prefix (induction over the search); "
-              "_add_to_defs neither loses nor duplicates members and adds the new element exactly when it has an id. The document-level "
+              "_add_to_defs neither loses nor duplicates members and adds the new element exactly when it has an id; addToDefs_ids_nodup — inserting an element whose id is not among the ids in defs "
+              "keeps them pairwise distinct wherever the sorted insert puts it (with newId_fresh: gradient copies never create a "
+              "duplicate). The document-level "
               "invariant (unique ids, every url(#x) fill resolves to a gradient in defs, no unreferenced gradient, no href) is judged on "
               "every converted document from a generator that stresses shared references and colliding generated ids; the pipeline "
               "model is tied to the code on the same documents."),
@@ -169,7 +172,9 @@ CLAIMED = {
               "innermost transform first and the outermost last for chains of any depth (elementTransform_step ties the step "
               "to the model of the code); use_instance / use_under_ctm — an instance is placed at T_use(p + (x,y)) under any "
               "CTM; viewport_none_under_ctm, viewport_meet_inside (with C11's rect_to_rect theorems) for nested svg; "
-              "replace_keeps_order — replacing one sibling by any list keeps all others in place and order (z-order). The "
+              "replace_keeps_order, tree_replace_keeps_document_order, tree_replace_order — replacing one element by any list of "
+              "nodes keeps every other element in place and in order, in a sibling list and (by mutual induction over the "
+              "model's bottom-up rewrite Node.replaceUid) anywhere in the tree at any depth: document order is z-order. The "
               "end-to-end claim is judged on every run: the ordered stack of visible paints of source and converted "
               "document at 64 points per document (independent renderer, geometry through the Lean path specification), and "
               "the pipeline model vs the implementation (trees + Skia questions) on the structural grammar to depth 4. Not "
@@ -208,11 +213,14 @@ CLAIMED = {
               "decision (Groups.removableCore: at most one child, or clamped opacity 0 or 1) says remove, replacing the group "
               "by its children with the opacity multiplied in leaves every layer stack containing it unchanged, at any "
               "position; flatten_unsound_two_children — for two overlapping children and 0 < opacity < 1 it does not, so such "
-              "groups must be kept (and are: C01 kept_group); nested_single, leaf_alpha_mul for opacity products. Judged on "
+              "groups must be kept (and are: C01 kept_group); nested_single, leaf_alpha_mul for opacity products; the cascade on "
+              "the model of the code: style_declarations_win (after _apply_styles every property has the value of its last "
+              "style declaration, a presentation attribute survives only where the style is silent), own_value_wins / "
+              "inherited_when_absent (copy handler of _inherit_attrib), display_none_inherits. Judged on "
               "every run: composited colour of source and converted document at 64 points per document on the cascade grammar "
               "(attributes and style declarations on shapes, groups, root and use; overlapping geometry), and the pipeline "
-              "model vs the implementation. Not proved: the cascade (style over attribute over inherited) as one theorem — it "
-              "is part of the model and compared per run."),
+              "model vs the implementation. Not proved: the multiplicative handlers (opacity products are IEEE doubles in the "
+              "model) and the composition of cascade and flattening into one end-to-end theorem."),
         note="Trusted: Lean kernel; standard axioms; harness/render.py. Genuine defects found and repaired: root opacity dropped (c355515), explicit default paint on a use target lost (e342f4a).",
         technique="Lean 4 proof (associativity of source-over, soundness and necessity of the flattening rule) + pipeline correspondence + rendering judge",
         ref="DESIGN.md §4 C05"),
@@ -221,10 +229,12 @@ CLAIMED = {
               "(compose_ltr((gradientTransform, T)) sends the gradient-space pre-image of q to T q), bbox_units "
               "(objectBoundingBox to user space), fold_translation / fold_translation_radial (translation folded into the "
               "coordinates: same user-space point, linear parameter and radial circle family invariant under the joint shift), "
-              "bake_then_fold. Rounding to 6 decimals is bounded by C01's rounding_half_unit. Judged on every run: the colour "
+              "bake_then_fold; template_inheritance — when an href template is inlined, every attribute the gradient set keeps its "
+              "value, a dataclass field it lacks takes the template's, nothing else is added (SvgObj.inheritFields is the loop "
+              "the model runs). Rounding to 6 decimals is bounded by C01's rounding_half_unit. Judged on every run: the colour "
               "the source's and the converted document's gradients give at 64 interior points per document (independent "
               "gradient evaluator), every output gradient self-contained, and the pipeline model vs the implementation incl. "
-              "every rewritten gradient attribute. Not proved: template (href) inheritance and spreadMethod handling."),
+              "every rewritten gradient attribute. Not proved: stop inheritance along href chains as a whole and spreadMethod handling."),
         note="Trusted: Lean kernel; standard axioms; harness/render.py gradient evaluator.",
         technique="Lean 4 proof (affine and gradient-parameter algebra) + pipeline correspondence + rendering judge",
         ref="DESIGN.md §4 C06"),
